@@ -17,13 +17,14 @@ import (
 
 // Result is what one process run looked like from the outside.
 type Result struct {
-	Exit     int    `json:"exit"`     // exit status, -1 when killed by a signal / watchdog
-	Stdout   []byte `json:"-"`        // raw bytes
-	Stderr   []byte `json:"-"`        // raw bytes
-	TimedOut bool   `json:"timedOut"` // the watchdog had to kill it
-	Signal   string `json:"signal"`   // non-empty when the process died from a signal (other than our kill)
-	Panic    bool   `json:"panic"`    // stderr carries a Go panic / fatal error marker
-	WallMs   int64  `json:"wallMs"`
+	Exit     int               `json:"exit"`     // exit status, -1 when killed by a signal / watchdog
+	Stdout   []byte            `json:"-"`        // raw bytes
+	Stderr   []byte            `json:"-"`        // raw bytes
+	TimedOut bool              `json:"timedOut"` // the watchdog had to kill it
+	Signal   string            `json:"signal"`   // non-empty when the process died from a signal (other than our kill)
+	Panic    bool              `json:"panic"`    // stderr carries a Go panic / fatal error marker
+	WallMs   int64             `json:"wallMs"`
+	FifoOut  map[string][]byte `json:"-"`
 }
 
 // Cmd describes one invocation.
@@ -39,6 +40,9 @@ type Cmd struct {
 	// Fifos are named pipes (path -> content) created before the run and fed by a writer; crd gets the path as an argument,
 	// as with process substitution `<(...)`
 	Fifos map[string][]byte
+	// OutFifos are named pipes created before the run and drained by a reader; crd gets the path as its -o target
+	// (what it wrote there comes back in Result.FifoOut)
+	OutFifos []string
 }
 
 var panicMarkers = [][]byte{
@@ -110,6 +114,37 @@ func Run(bin string, c Cmd) Result {
 			}(path)
 		}
 	}
+	var fifoMu sync.Mutex
+	var fifoWG sync.WaitGroup
+	fifoOut := map[string][]byte{}
+	var keepAlive []*os.File
+	for _, path := range c.OutFifos {
+		_ = os.Remove(path)
+		if err := syscall.Mkfifo(path, 0o600); err != nil {
+			continue
+		}
+		// both ends are open before crd starts (the read end first, without blocking; then a write end of our own, so that
+		// the reader sees no end of file before crd has come and gone): nothing crd writes can be lost
+		rd, err := os.OpenFile(path, os.O_RDONLY|syscall.O_NONBLOCK, 0)
+		if err != nil {
+			continue
+		}
+		wr, err := os.OpenFile(path, os.O_WRONLY, 0)
+		if err != nil {
+			rd.Close()
+			continue
+		}
+		keepAlive = append(keepAlive, wr)
+		fifoWG.Add(1)
+		go func(path string, rd *os.File) {
+			defer fifoWG.Done()
+			b, _ := io.ReadAll(rd)
+			rd.Close()
+			fifoMu.Lock()
+			fifoOut[path] = b
+			fifoMu.Unlock()
+		}(path, rd)
+	}
 	var so, se bytes.Buffer
 	cmd.Stdout = &limitWriter{w: &so, n: 64 << 20}
 	cmd.Stderr = &limitWriter{w: &se, n: 8 << 20}
@@ -118,7 +153,14 @@ func Run(bin string, c Cmd) Result {
 	cmd.WaitDelay = 2 * time.Second
 	start := time.Now()
 	err := cmd.Run()
-	r := Result{Stdout: so.Bytes(), Stderr: se.Bytes(), WallMs: time.Since(start).Milliseconds()}
+	for _, f := range keepAlive {
+		f.Close() // crd is gone: the readers reach the end of what it wrote
+	}
+	fifoWG.Wait()
+	for _, path := range c.OutFifos {
+		os.Remove(path)
+	}
+	r := Result{Stdout: so.Bytes(), Stderr: se.Bytes(), WallMs: time.Since(start).Milliseconds(), FifoOut: fifoOut}
 	if ctx.Err() != nil {
 		r.TimedOut = true
 		r.Exit = -1
